@@ -477,6 +477,19 @@ func (e *Engine) applyContractEnv(st *State, fr *Frame, c *Contract, env map[str
 			renv[cl.Name] = Val{T, L}
 		}
 	}
+	// "preserves e1, e2": whatever else the (assumed) callee changes, these expressions keep their values
+	for _, cl := range c.clauses("preserves") {
+		for _, ex := range cl.Exprs {
+			pv := e.eval(pctx, ex)
+			nv := e.eval(&evalCtx{e: e, st: st, env: env, pkg: pkg}, ex)
+			if len(pv.L) != len(nv.L) {
+				panic(fmt.Errorf("%s:%d: preserves: shape mismatch", cl.File, cl.Line))
+			}
+			for i := range pv.L {
+				st.assume(Eq(nv.L[i], pv.L[i]))
+			}
+		}
+	}
 	for _, cl := range c.Clauses {
 		if cl.Kind == "ensures" && cl.Case == "" {
 			t := e.evalBool(actx, cl.Expr)
@@ -725,6 +738,28 @@ func (e *Engine) evalPureCall0(c *evalCtx, fn *ssa.Function, args []Val) Val {
 	}
 	if len(outs) == 0 {
 		panic(fmt.Errorf("pure call %s: no return", shortFn(fn)))
+	}
+	// Facts collected along the evaluated paths (branch conditions, postconditions of contracted callees that define
+	// their fresh results): one of the outcomes happens (the function is total), so their disjunction may be assumed.
+	// Without it the fresh results of nested contract calls would be unconstrained.
+	{
+		var conds []*Term
+		bound := false
+		for _, o := range outs {
+			if o.cond.hasBound {
+				bound = true
+			}
+			conds = append(conds, o.cond)
+		}
+		if !bound && c.qdepth == 0 {
+			target := c.sink
+			if target == nil {
+				target = c.st
+			}
+			if d := Or(conds...); !d.IsTrue() {
+				target.assume(d)
+			}
+		}
 	}
 	v := outs[len(outs)-1].val
 	for i := len(outs) - 2; i >= 0; i-- {
